@@ -578,6 +578,11 @@ def determinism_crosscheck(prop, base_seed, digests, count):
     got = json.loads(p.stdout.strip().splitlines()[-1])
     for (i, d), d2 in zip(sample, got):
         if d != d2:
+            if "!" in d2:
+                # the run violates the property under another hash seed only: the
+                # library's behaviour depends on PYTHONHASHSEED, which is then part
+                # of the replay file
+                return len(idx), ("HASHSEED-VIOLATION", i, d2.split("!", 1)[1])
             return len(idx), ("run index %d: digest %s in pool vs %s in fresh "
                               "interpreter (PYTHONHASHSEED=4242)" % (i, d, d2))
     return len(idx), None
@@ -702,6 +707,26 @@ def cmd_check(args):
     ncheck = int(os.environ.get("VERIF_DETERMINISM_SAMPLE", ncheck))
     nd, derr = determinism_crosscheck(prop, base_seed, agg["digests"], ncheck)
     extra["determinism_reruns"] = nd
+    if isinstance(derr, tuple) and derr[0] == "HASHSEED-VIOLATION":
+        _, i, check_id = derr
+        seed = run_seed(base_seed, prop.ID, i)
+        trace = prop.gen(seed)
+        rep = {"property": prop.ID, "check_id": check_id, "hashseed": 4242,
+               "message": "violated only under PYTHONHASHSEED=4242 (the library's behaviour "
+                          "depends on the hash seed); the replay runs under that seed",
+               "base_seed": base_seed, "run_index": i, "run_seed": seed, "tree": tree,
+               "trace": trace, "original_ops": len(trace.get("ops", ()))}
+        d = os.path.join(OUT, "replays")
+        os.makedirs(d, exist_ok=True)
+        path = os.path.join(d, "%s-%d.json" % (prop.ID, seed))
+        with open(path, "w") as f:
+            json.dump(rep, f, indent=1, sort_keys=True, default=_js)
+            f.write("\n")
+        write_evidence(prop, tier, base_seed, agg, 1, time.time() - t0, extra)
+        print("violation found under PYTHONHASHSEED=4242 only: run index %d check=%s"
+              % (i, check_id))
+        print("VIOLATION property=%s replay=%s" % (prop.ID, path))
+        return 1
     if derr:
         print("HARNESS-ERROR nondeterminism: %s" % derr)
         write_evidence(prop, tier, base_seed, agg, 0, time.time() - t0,
@@ -726,7 +751,10 @@ def cmd_digests(args):
         seed = run_seed(args.seed, prop.ID, i)
         trace = prop.gen(seed)
         o = execute_trace(prop, trace)
-        out.append(o.env.digest())
+        d = o.env.digest()
+        if o.violation is not None:
+            d += "!" + o.violation.check_id          # (a violation is part of the outcome)
+        out.append(d)
         gc.collect()
     print(json.dumps(out))
     return 0
@@ -735,6 +763,12 @@ def cmd_digests(args):
 def cmd_replay(path, as_json):
     with open(path) as f:
         rep = json.load(f)
+    hs = rep.get("hashseed")
+    if hs is not None and os.environ.get("PYTHONHASHSEED") != str(hs):
+        # the hash seed is part of this replay: re-execute under it
+        p = fresh_interpreter(["--replay-json" if as_json else "--replay", path], hashseed=hs)
+        sys.stdout.write(p.stdout)
+        return p.returncode
     if not as_json and str(rep.get("check_id", "")).endswith(".crash"):
         # executing it here would kill this process: use a child
         p = fresh_interpreter(["--replay-json", path], hashseed=0, timeout=300)
